@@ -737,6 +737,18 @@ func msScriptFamily(run *ev.Run, n int) {
 				c.fail("multisig-script:majority-threshold", fmt.Sprintf("n=%d m=%d", nk, mm))
 			}
 		}
+		// the key-list codec
+		var back keys.PublicKeys
+		if err := back.DecodeBytes(pubs.Bytes()); err != nil || len(back) != nk {
+			c.fail("pubkey-list:binary-roundtrip", fmt.Sprint(err))
+		} else {
+			for j := range back {
+				if !back[j].Equal(pubs[j]) {
+					c.fail("pubkey-list:binary-roundtrip", fmt.Sprintf("position %d", j))
+					break
+				}
+			}
+		}
 		// the single-signature builder of emit
 		w := io.NewBufBinWriter()
 		emit.CheckSig(w.BinWriter, raw[0])
